@@ -144,6 +144,17 @@ func execKeyBlind(c *ctx, in ev) []ev {
 	enc := func(k *ecdsa.PublicKey) []byte { return elliptic.Marshal(curve, k.X, k.Y) }
 	cb := &ctxBuf{}
 	noCtx := noCtxChooser()
+	// blind keys are long-lived objects of the caller: ONE key object per blind for the whole history (so that
+	// anything the library might remember inside a key object is carried from call to call)
+	bks := map[string]*ecdsa.PrivateKey{}
+	blindKey := func(name string) *ecdsa.PrivateKey {
+		if k, ok := bks[name]; ok {
+			return k
+		}
+		k, _ := ecdsa.CreateKey(curve, kbBlindBytes(c.seed, curve, name))
+		bks[name] = k
+		return k
+	}
 	sks := map[string]*ecdsa.PrivateKey{}
 	for _, name := range []string{"s1", "s2", "s3"} {
 		sk, _ := ecdsa.CreateKey(curve, kbScalar(c.seed, curve, "sk-"+name).Bytes())
@@ -158,7 +169,7 @@ func execKeyBlind(c *ctx, in ev) []ev {
 		case "Blind", "Unblind":
 			idx := jInt(s["in"]) % len(pool)
 			bname, cname := s["b"].(string), s["ctx"].(string)
-			bk, _ := ecdsa.CreateKey(curve, kbBlindBytes(c.seed, curve, bname))
+			bk := blindKey(bname)
 			ctx := cb.get(cname)
 			var res *ecdsa.PublicKey
 			var err error
@@ -195,7 +206,7 @@ func execKeyBlind(c *ctx, in ev) []ev {
 				if op == "BSign" {
 					bname, cname := s["b"].(string), s["ctx"].(string)
 					e["b"], e["ctx"] = bname, cname
-					bk, _ := ecdsa.CreateKey(curve, kbBlindBytes(c.seed, curve, bname))
+					bk := blindKey(bname)
 					if noCtx(s) {
 						r, sv, err = ecdsa.BlindKeySign(cryptorand.Reader, sks[skn], bk, kbDigest(c.seed, dname))
 					} else {
@@ -214,7 +225,7 @@ func execKeyBlind(c *ctx, in ev) []ev {
 		case "BlindLen": // context of a given length: compared with the reference only (no term)
 			n := jInt(s["n"])
 			bname := s["b"].(string)
-			bk, _ := ecdsa.CreateKey(curve, kbBlindBytes(c.seed, curve, bname))
+			bk := blindKey(bname)
 			ctxv := hashBytes(c.seed, fmt.Sprintf("kb-ctx-len-%d", n), n)
 			e := ev{"op": "BlindRef", "n": n, "b": bname, "ok": false, "ref_ok": false, "last_byte_matters": false, "panic": ""}
 			e["panic"] = guard(func() {
@@ -305,6 +316,15 @@ func execKeyBlindEd(c *ctx, in ev) []ev {
 	pool := [][]byte{}
 	sigs := [][]byte{}
 	noCtx := noCtxChooser()
+	// the caller's ONE context buffer, rewritten in place for every call (the reference gets its own copy)
+	cbE := &ctxBuf{}
+	ectx := func(name string) []byte {
+		cx := edCtx(c.seed, name)
+		if cx == nil {
+			return nil
+		}
+		return cbE.get2(cx)
+	}
 	sks := map[string]ed25519.PrivateKey{}
 	for _, name := range []string{"s1", "s2", "s3"} {
 		sk := ed25519.NewKeyFromSeed(hashBytes(c.seed, "kb-ed-seed-"+name, 32))
@@ -327,11 +347,11 @@ func execKeyBlindEd(c *ctx, in ev) []ev {
 				case op == "Blind" && noCtx(s):
 					res, err = ed25519.BlindPublicKey(append([]byte{}, pool[idx]...), edBlindBytes(c.seed, bname))
 				case op == "Blind":
-					res, err = ed25519.BlindPublicKeyWithContext(append([]byte{}, pool[idx]...), edBlindBytes(c.seed, bname), edCtx(c.seed, cname))
+					res, err = ed25519.BlindPublicKeyWithContext(append([]byte{}, pool[idx]...), edBlindBytes(c.seed, bname), ectx(cname))
 				case noCtx(s):
 					res, err = ed25519.UnblindPublicKey(append([]byte{}, pool[idx]...), edBlindBytes(c.seed, bname))
 				default:
-					res, err = ed25519.UnblindPublicKeyWithContext(append([]byte{}, pool[idx]...), edBlindBytes(c.seed, bname), edCtx(c.seed, cname))
+					res, err = ed25519.UnblindPublicKeyWithContext(append([]byte{}, pool[idx]...), edBlindBytes(c.seed, bname), ectx(cname))
 				}
 			})
 			e := ev{"op": op, "in": keyIDs.id(pool[idx]), "b": bname, "ctx": cname, "ok": err == nil && p == "" && len(res) == 32, "panic": p, "out": "", "ref_ok": false}
@@ -370,7 +390,7 @@ func execKeyBlindEd(c *ctx, in ev) []ev {
 					if noCtx(s) {
 						sig = ed25519.BlindKeySign(sks[skn], kbDigest(c.seed, dname), edBlindBytes(c.seed, bname))
 					} else {
-						sig = ed25519.BlindKeySignWithContext(sks[skn], kbDigest(c.seed, dname), edBlindBytes(c.seed, bname), edCtx(c.seed, cname))
+						sig = ed25519.BlindKeySignWithContext(sks[skn], kbDigest(c.seed, dname), edBlindBytes(c.seed, bname), ectx(cname))
 					}
 				} else {
 					sig = ed25519.Sign(sks[skn], kbDigest(c.seed, dname))
